@@ -92,7 +92,7 @@ fn mutate(g: &mut Gen, endpoint: &str) -> Option<(Vec<u8>, &'static str)> {
     let mut v = valid_body(g, endpoint);
     let fs = fields(endpoint);
     let (path, kind) = fs[g.rng.below(fs.len() as u64) as usize].clone();
-    let pick = g.rng.below(13);
+    let pick = g.rng.below(15);
     let tok = match pick {
         0 => {
             // remove the key
@@ -101,8 +101,17 @@ fn mutate(g: &mut Gen, endpoint: &str) -> Option<(Vec<u8>, &'static str)> {
             "missing"
         }
         1 => {
+            // the wrongly typed value is echoed in the error message: vary what a client can put there (long, and
+            // not only ASCII: 2-, 3- and 4-byte characters at every alignment)
+            let exotic = |g: &mut Gen| -> String {
+                let unit = *g.rng.pick(&["\u{e9}", "\u{20ac}", "\u{1d11e}", "\u{20ac}\u{e9}"]);
+                let pre = "abc"[..g.rng.below(4) as usize].to_string();
+                format!("{pre}{}", unit.repeat(20 + g.rng.below(120) as usize))
+            };
             *at(&mut v, &path) = match kind {
+                "u32" if g.rng.chance(1, 2) => json!(exotic(g)),
                 "u32" => json!("7"),
+                "object" if g.rng.chance(1, 2) => json!(exotic(g)),
                 "object" => json!("not an object"),
                 _ => json!(42),
             };
@@ -115,7 +124,8 @@ fn mutate(g: &mut Gen, endpoint: &str) -> Option<(Vec<u8>, &'static str)> {
         }
         3 if kind.starts_with("hex") => {
             let s = at(&mut v, &path).as_str().unwrap().to_string();
-            *at(&mut v, &path) = json!(format!("zz{}", &s[2..]));
+            let bad = *g.rng.pick(&["zz", "\u{e9}", "z\u{e9}"]);
+            *at(&mut v, &path) = json!(format!("{bad}{}", &s[bad.len().min(s.len())..]));
             "hexbad"
         }
         4 if kind != "u32" && kind != "object" => {
@@ -146,6 +156,18 @@ fn mutate(g: &mut Gen, endpoint: &str) -> Option<(Vec<u8>, &'static str)> {
             let key = path[0];
             let dup = format!("{{\"{key}\": {}, {}", serde_json::to_string(&v[key]).unwrap(), &s[1..]);
             return Some((dup.into_bytes(), "dupkey"));
+        }
+        12 | 13 => {
+            // a number or an object retyped to a long string with multi-byte characters (echoed in the error message)
+            let cands: Vec<_> = fs.iter().filter(|(_, k)| *k == "u32" || *k == "object").cloned().collect();
+            if cands.is_empty() {
+                return None;
+            }
+            let (path, _) = cands[g.rng.below(cands.len() as u64) as usize].clone();
+            let unit = *g.rng.pick(&["\u{e9}", "\u{20ac}", "\u{1d11e}", "\u{20ac}\u{e9}"]);
+            let pre = "abc"[..g.rng.below(4) as usize].to_string();
+            *at(&mut v, &path) = json!(format!("{pre}{}", unit.repeat(30 + g.rng.below(100) as usize)));
+            "type"
         }
         _ => {
             // an unknown extra field is ignored: the request is a valid one (model: forwarded) — not used here
